@@ -9,7 +9,7 @@ from typing import Any, Dict, List, Optional, Tuple
 
 from . import core
 from .absint import (CellV, CondV, ExcV, Interp, ListV, NoneV, OriginV, Outcome, State, Unknown)
-from .lin import Atom, DivA, Fn, Lin, ModA, Opaque, Slice, Sym, compare
+from .lin import Atom, DivA, FltDivA, Fn, Lin, ModA, Opaque, Slice, Sym, compare
 
 SER = "a5/core/serialization.py"
 INFO = "a5/core/cell_info.py"
@@ -285,6 +285,9 @@ def eval_atom(a: Atom, val: Dict[str, int], fnval) -> int:
         return eval_lin(a.lin, val, fnval) % a.m
     if isinstance(a, DivA):
         return eval_lin(a.lin, val, fnval) // a.m
+    if isinstance(a, FltDivA):
+        import math as _m
+        return _m.floor(eval_lin(a.lin, val, fnval) / (1 << a.k))      # int / int: correctly rounded quotient, as in the analysed code
     if isinstance(a, Fn):
         args = tuple(eval_lin(x, val, fnval) for x in a.args)
         return fnval(a, args)
@@ -307,7 +310,7 @@ def refute_equal(a: Lin, b: Lin, seed: int = 0, tries: int = 64) -> Optional[Dic
                 syms[at.name] = _tightest(syms.get(at.name), at)
             elif isinstance(at, Slice):
                 syms[at.sym.name] = _tightest(syms.get(at.sym.name), at.sym)
-            elif isinstance(at, (ModA, DivA)):
+            elif isinstance(at, (ModA, DivA, FltDivA)):
                 collect(at.lin)
             elif isinstance(at, Fn):
                 fns[at.key] = at
